@@ -391,6 +391,31 @@ def check_gc(ctx, f, gcs, judged, k):
             left, right, cl = right, left, cr
             op = {'<': '>', '>': '<', '<=': '>=', '>=': '<='}[op]
         if cl is None:
+            # completability form of the short-string test:  G+C + (k - len(s))  <  lo * k
+            from .repair import affine
+            for L, R, o in ((left, right, op), (right, left, {'<': '>', '>': '<', '<=': '>=', '>=': '<='}.get(op))):
+                a = affine(L)
+                if not a or o is None:
+                    continue
+                cnt = {x: v for x, v in a.items() if x != 1 and x[0] == 'call' and x[1][0] == 'attr' and x[1][2] == 'count'}
+                rest = {x: v for x, v in a.items() if x not in cnt and not (x == 1 and v == 0)}
+                lets = sorted(x[2][0][1] for x in cnt if len(x[2]) == 1 and x[2][0][0] == 'c')
+                srcs = {x[1][1] for x in cnt}
+                if lets == ['C', 'G'] and set(cnt.values()) == {1} and len(srcs) == 1 and \
+                        rest == {k: 1, ('call', ('g', 'builtins.len'), (next(iter(srcs)),), ()): -1} and \
+                        R[0] == 'bin' and R[1] == '*' and {R[2], R[3]} == {lo, k}:
+                    tab = []
+                    for a_, b_ in ((1, 2), (2, 2), (3, 2)):
+                        v = feval(('cmp', o, ('c', a_), ('c', b_)), lambda x: UNKNOWN)
+                        tab.append(bool(v) == pol)
+                    n['short'] += 1
+                    run.check(tuple(tab) == (True, False, False), 'R-ORD', f, 'short:AT-upper', nd.lineno,
+                              'rejects only when the missing letters cannot lift G+C to the lower bound',
+                              'the completability test of a short string (G+C + missing letters vs lo*k) rejects with table %s for '
+                              '<, =, >; required (True, False, False): a string that can be completed exactly onto the lower bound '
+                              'is a valid prefix' % (tuple(tab),), extracted=[str(x) for x in tab],
+                              inputs='short strings whose A+T count exactly exhausts the budget, e.g. k=4, gc_range=[0.5,0.5], "AT"')
+                    break
             continue
         src, letters = cl
         tab = []
